@@ -165,15 +165,56 @@ func asWriter(rw *recw, fl bool) http.ResponseWriter {
 	return rw
 }
 
-func hname(k int64) string { return "X-H" + strconv.FormatInt(k, 10) }
-func hval(v int64) string  { return "v" + strconv.FormatInt(v, 10) }
+// Header NAMES are inputs: a case may map the scripts' integer header keys to real header
+// names (possibly in a non-canonical spelling; Header.Set/Add/Del canonicalise it), drawn by
+// the generator from a vocabulary of names some layer might special-case.  The executors run
+// their cases one after the other, so the table of the current case is a package variable.
+var (
+	curNames   map[int64]string // key -> name as the handler spells it
+	curReverse map[string]int64 // canonical name -> key
+)
+
+func setNames(names map[string]string) {
+	curNames, curReverse = map[int64]string{}, map[string]int64{}
+	for ks, name := range names {
+		k, err := strconv.ParseInt(ks, 10, 64)
+		if err != nil {
+			continue
+		}
+		curNames[k] = name
+		curReverse[http.CanonicalHeaderKey(name)] = k
+	}
+}
+
+func hname(k int64) string {
+	if n, ok := curNames[k]; ok {
+		return n
+	}
+	return "X-H" + strconv.FormatInt(k, 10)
+}
+
+func hval(v int64) string { return "v" + strconv.FormatInt(v, 10) }
+
+func hkey(name string) (int64, bool) {
+	if k, ok := curReverse[name]; ok {
+		return k, true
+	}
+	k, err := strconv.ParseInt(strings.TrimPrefix(name, "X-H"), 10, 64)
+	if !strings.HasPrefix(name, "X-H") || err != nil {
+		return 0, false
+	}
+	if _, taken := curNames[k]; taken {
+		return 0, false // this key goes by another name in this case
+	}
+	return k, true
+}
 
 func hdrOut(h http.Header) ([]Hdr, []XHdr) {
 	res := []Hdr{}
 	xs := []XHdr{}
 	for name, vals := range h {
-		k, err := strconv.ParseInt(strings.TrimPrefix(name, "X-H"), 10, 64)
-		if !strings.HasPrefix(name, "X-H") || err != nil {
+		k, ok := hkey(name)
+		if !ok {
 			xs = append(xs, XHdr{name, append([]string{}, vals...)})
 			continue
 		}
@@ -391,6 +432,8 @@ type SeqCase struct {
 	DurNs int64      `json:"dur_ns"`
 	Reqs  []SeqReqIn `json:"reqs"`
 	Order [][]any    `json:"order"` // ["start", i] | ["H", i] | ["D", i] | ["T", i]
+	// header names of the scripts' header keys (default "X-H<k>")
+	Names map[string]string `json:"names"`
 	// Procs > 0: run the case with GOMAXPROCS(Procs).  With one P, per-P caches
 	// (sync.Pool) hand an object released by one request to the very next one.
 	Procs int `json:"procs"`
@@ -464,6 +507,7 @@ func runSeqCore(c SeqCase, build func(work http.HandlerFunc) (http.Handler, func
 	if c.Procs > 0 {
 		defer runtime.GOMAXPROCS(runtime.GOMAXPROCS(c.Procs))
 	}
+	setNames(c.Names)
 	tA := time.Now()
 	reqs := make([]*seqReq, len(c.Reqs))
 	for i, in := range c.Reqs {
